@@ -355,6 +355,8 @@ class Ctx:
             goal = goal.e
         if isinstance(goal, bool):
             goal = z3.BoolVal(goal)
+        meta = dict(meta or {})
+        meta["cx"] = self
         ob = Obligation(name, list(self.background) + list(self.pc), goal, where=where,
                         path=self.path_id(), cfg=self.cfg, meta=meta)
         self.obligations.append(ob)
